@@ -627,7 +627,7 @@ class InterpolatedPredictionStrategy(DefaultPredictionStrategy):
             inner_cache = RootLinearOperator(inducing_compression_matrix.matmul(qmat_inv_root.root.to_dense()))
         else:
             inner_cache = inducing_compression_matrix.matmul(
-                current_qmatrix.solve(inducing_compression_matrix.transpose(-1, -2))
+                current_qmatrix.solve(to_dense(inducing_compression_matrix).transpose(-1, -2))
             )
 
         # Precomputed factor
